@@ -39,6 +39,54 @@ def fresh_case(case, results, upto):
     return dict(case, ops=fresh_ops), upto, len(probes)
 
 
+def canon_expr(e):
+    """pattern of a route expression as the tree sees it (wildcard names erased, redundant escapes removed)"""
+    out = []
+    for seg in e.split("/"):
+        if seg.startswith(":"):
+            out.append(":")
+        elif seg.startswith("*"):
+            out.append("*")
+            break
+        elif len(seg) >= 2 and seg[0] == "\\" and seg[1] in "*:\\":
+            out.append("L" + seg[1:])
+        else:
+            out.append("L" + seg)
+    return tuple(out)
+
+
+def has_alias(rules):
+    seen = {}
+    for r in rules:
+        for rt in r["routes"]:
+            k = (r["id"], canon_expr(rt["path"]))
+            if k in seen and seen[k] != rt["path"]:
+                return True
+            seen.setdefault(k, rt["path"])
+    return False
+
+
+def removal_oracle(R, cases, impl):
+    """SPEC: removing the version in force of a rule set never fails (C06: deleted / replaced versions never match
+    again). A `del` must be applied; an `upd` rejected by the implementation must also be rejected when the same
+    rules are added to a repository that does not hold the old version (i.e. the rejection is due to the new rules)."""
+    n = 0
+    for c, i in zip(cases, impl):
+        if not isinstance(i, list):
+            continue
+        for k, (op, res) in enumerate(zip(c["ops"], i)):
+            if op["op"] == "del" and res != "ok":
+                n += 1
+                cur = current_sets(c["ops"][:k], i[:k]).get(op["src"], [])
+                if has_alias(cur):
+                    R.known_hits["C06-backslash-alias"] = R.known_hits.get("C06-backslash-alias", 0) + 1
+                else:
+                    R.violation(f"DeleteRuleSet({op['src']}) was rejected ({res}); its rules keep matching",
+                                {"case": dict(c, ops=c["ops"][:k + 1]), "impl": i[:k + 1],
+                                 "kind": "impl-vs-spec"}, no_input=False)
+    return n
+
+
 def probe_points(case):
     ops = case["ops"]
     pts = []
@@ -85,6 +133,7 @@ def run(R):
                             f"history {json.dumps(orig)[:300]} vs fresh {json.dumps(got)[:300]}",
                             {"case": cases[ci], "upto": upto, "fresh_case": fc, "history_results": impl[ci],
                              "fresh_results": fi, "kind": "impl-history-vs-impl-fresh"}, no_input=False)
+    rejected_deletes = removal_oracle(R, cases, impl)
     st = rc.stats_sum(model)
     nops = {"add": 0, "upd": 0, "del": 0, "find": 0}
     rejected = 0
@@ -100,7 +149,7 @@ def run(R):
                 "rule-set processor and repository, compared op by op with the Lean model; plus, after every block "
                 "of changes, the same lookups against a freshly loaded real repository. Non-trivial = fresh-load "
                 "comparison after >= 1 update/delete in which a regular rule answered; distinct by case hash",
-        "operations": nops, "rejected_changes": rejected, "fresh_load_comparisons": len(fresh),
+        "operations": nops, "rejected_changes": rejected, "rejected_deletes": rejected_deletes, "fresh_load_comparisons": len(fresh),
         "lookups_with_2plus_candidates": st.get("multi", 0), "lookups_matched": st.get("matched", 0),
         "lookups_default_rule": st.get("default", 0), "corpus_cases": len(corpus),
         "samples": [cases[len(corpus)]] if len(cases) > len(corpus) else [cases[0]],
